@@ -296,6 +296,18 @@ func main() {
 		if len(c.Ops) > 0 {
 			replayMulti(r, c)
 		}
+		if c.Peer != nil && len(c.Q.Texts) == 1 {
+			fmt.Printf("replay level=%s (literal-grammar consistency)\n  parameter: %v\n", c.Level, c.D.paramJSON())
+			cl, what := checkPeer(c)
+			fmt.Printf("  class=%q %s\n", cl, what)
+			if cl != "" {
+				r.Fail(cl, what, c)
+			}
+			r.Eval(2)
+			r.Nontrivial(1)
+			r.Sample(c)
+			r.Finish("replay of one case", false)
+		}
 		if c.D2 != nil && c.Q2 != nil {
 			pp := preparePair(c.Level, c.D, *c.D2)
 			o, ok := pp.execute(c.Q, *c.Q2)
@@ -376,6 +388,7 @@ func main() {
 		"default":           "none | the standard valid default of the type",
 		"allowEmptyValue":   "query and formData only",
 		"formats_registry":  "default registry | the application's own registry (strfmt.NewFormats()+Add at the Bind levels, untyped.API.RegisterFormat at the handler level) with user format x-shout (own Go type, upper-casing UnmarshalText, own validator) and a user hexcolor shadowing the built-in name; scalars and array items, every location",
+		"literal_grammar":   "zero-padded in-range numerals 42, -42, +7 of 3, 19, 20, 21, 22 and 40 characters for every integer width, scalars and array items (3, 21, 40): three-valued like every leading-zero spelling, plus one decision (bound / 422) demanded per class of texts that differ only in padding",
 		"collection_format": []string{"(none)", "csv", "ssv", "tsv", "pipes", "multi (query, formData)"},
 		"presence":          "absent, empty, once (every text), twice (valid first + every text; every text + valid last), three times, empty twice, other spellings of the name on the wire, decoys in the other locations",
 	})
@@ -385,12 +398,14 @@ func main() {
 		p := prepare(j.level, j.d)
 		var evals, nontrivial int64
 		outcomes := map[string]int64{}
+		grammar := grammarLog{}
 		for _, q := range requests(j.d) {
 			o, ok := p.execute(q)
 			if !ok {
 				continue
 			}
 			evals++
+			grammar.note(j.d, q, o)
 			e := reference(j.d, q)
 			if e.mustBind() || e.must422() {
 				nontrivial++
@@ -404,6 +419,9 @@ func main() {
 			} else if r.WantSample() && i%(len(jobs)/11+1) == 0 && int(evals) == 3+i%7 {
 				r.Sample(map[string]any{"case": Case{Level: j.level, D: j.d, Q: q}, "observed": o.String(), "expected": e.String()})
 			}
+		}
+		for _, v := range grammar.verdicts(j.level, j.d) {
+			r.Fail(v.class, v.what, v.c)
 		}
 		r.Eval(evals)
 		r.Nontrivial(nontrivial)
@@ -459,7 +477,7 @@ func main() {
 		"requests are rendered as HTTP/1.1 text and parsed by net/http.ReadRequest; header field values lose surrounding blanks there (HTTP), every other location is escaped by the renderer and arrives unchanged",
 		"statuses at the map/struct level are derived from the binder's error the way go-openapi/errors.ServeError does (first nested error, codes >= 600 answer 422)")
 	pprof.StopCPUProfile()
-	r.Finish("every declaration of the stated product x every request of the stated presence/text sets, at each level; one evaluation = one Bind call or one request through the handler stack on the real code, compared with the reference; non-trivial = the property text forces the outcome of the case (MUST bind exactly one of the listed values, or MUST be 422) so the comparison can fail both ways; distinct by construction: the enumerators never repeat a (level, declaration, request) triple. Multi-operation sweep (handler level): every ordered pair (thorough: also every ordered triple of the first six) of the colliding declaration alphabet per location as operations of ONE API, rebuilt the stated number of times; every request of the shared request alphabet to every operation, alone and as the second of two (third of three) consecutive requests to different operations on one handler instance, must give exactly the result of a fresh single-operation API of that operation's own declaration, which is itself judged by the reference; each such request is one non-trivial evaluation", true)
+	r.Finish("every declaration of the stated product x every request of the stated presence/text sets, at each level; one evaluation = one Bind call or one request through the handler stack on the real code, compared with the reference; non-trivial = the property text forces the outcome of the case (MUST bind exactly one of the listed values, or MUST be 422) so the comparison can fail both ways; distinct by construction: the enumerators never repeat a (level, declaration, request) triple. The formats registry is a configuration axis (default registry, or the application's own registry with a user-defined format and a user format shadowing a built-in name; the reference then demands the value and Go type the text denotes under that registry). Texts that differ only in zero padding (same value, 3 to 40 characters) must get one decision per declaration and level. Multi-operation sweep (handler level): every ordered pair (thorough: also every ordered triple of the first six) of the colliding declaration alphabet per location as operations of ONE API, rebuilt the stated number of times; every request of the shared request alphabet to every operation, alone and as the second of two (third of three) consecutive requests to different operations on one handler instance, must give exactly the result of a fresh single-operation API of that operation's own declaration, which is itself judged by the reference; each such request is one non-trivial evaluation", true)
 }
 
 // quickHandlerSlice: the declarations that also go through the full handler
